@@ -329,3 +329,82 @@ def corpus_std():
         name = os.path.basename(path)[:-3]
         out.append({"id": "std:" + name, "lines": ["%" + name], "io": True, "source": "std"})
     return out
+
+
+# ---------------------------------------------------------------------------------------------
+# C16: tail-recursive program shapes.  {N} = iteration count, {B} = "" or a statement that creates
+# a heap binary which the iteration then drops.
+# ---------------------------------------------------------------------------------------------
+BIN = "[0x01, 0x02] __binary_concat__, "
+SUB = "__integer_subtract__"
+ADD = "__integer_add__"
+CMP = "__integer_compare__"
+
+TEMPLATES = [
+    # --- `^` (self) ---------------------------------------------------------------------------
+    ("self_countdown", False, "f = #'int {{ | =0 => 0 | [~, 1] %(SUB)s ^ }}, {N} f"),
+    ("self_block", False, "f = #'int {{ | =0 => Done | {{ [~, 1] %(SUB)s ^ }} }}, {N} f"),
+    ("self_block2", False, "f = #'int {{ | =0 => Done | {{ {{ [~, 1] %(SUB)s ^ }} }} }}, {N} f"),
+    ("self_conseq", True, "f = #'int {{ | =0 => 0 | =n => {B}[n, 1] %(SUB)s ^ }}, {N} f"),
+    ("self_conseq_block", True, "f = #'int {{ | =0 => Ok | =n => {{ {B}[n, 1] %(SUB)s ^ }} }}, {N} f"),
+    ("self_conseq_block2", True, "f = #'int {{ | =0 => Ok | =n => {{ {{ {B}[n, 1] %(SUB)s }} ^ }} }}, {N} f"),
+    ("self_acc", True, "f = #['int, 'int] {{ | =[0, acc] => acc | =[n, acc] => {B}[[n, 1] %(SUB)s, [acc, n] %(ADD)s] ^ }}, [{N}, 0] f"),
+    ("self_acc_bin_arg", False, "f = #['int, 'bin] {{ | =[0, b] => b | =[n, b] => [[n, 1] %(SUB)s, [b, 0x02] __binary_concat__ [0x01, 0x02] __binary_concat__] ^ }}, [{N}, 0x00] f"),
+    ("self_locals", True, "f = #'int {{ | =0 => 0 | =n => {B}a = [n, 1] %(SUB)s, b = [a, 0] %(ADD)s, c = [b, a], c.0 ^ }}, {N} f"),
+    ("self_two_guards", True, "f = #'int {{ | =0 => 0 | =1 => 0 | =n [n, 10] %(CMP)s =1 => {B}[n, 2] %(SUB)s ^ | =n => {B}[n, 1] %(SUB)s ^ }}, {N} f"),
+    ("self_named_tuple", True, "'s = S['int, 'int]\nf = #'s {{ | =S[0, a] => a | =S[n, a] => {B}S[[n, 1] %(SUB)s, [a, 1] %(ADD)s] ^ }}, S[{N}, 0] f"),
+    ("self_capture", True, "k = 1, f = #'int {{ | =0 => 0 | =n => {B}[n, k] %(SUB)s ^ }}, {N} f"),
+    ("self_capture_bin", False, "k = [0x0a, 0x0b] __binary_concat__, f = #'int {{ | =0 => k | =n => [k, 0x01] __binary_concat__, [n, 1] %(SUB)s ^ }}, {N} f"),
+    ("self_inner_branch", True, "f = #'int {{ | =0 => 0 | =n => n {{ | =1 => 0 ^ | =m => {B}[m, 1] %(SUB)s ^ }} }}, {N} f"),
+    ("self_match_in_chain", False, "f = #'int {{ | =0 => 0 | [~, 1] =[n, d], [n, d] %(SUB)s ^ }}, {N} f"),
+    ("self_nilable_step", True, "f = #'int {{ | =0 => 0 | =n => {B}n {{ | =0 => [] | [~, 1] %(SUB)s }} =m, m ^ }}, {N} f"),
+    ("self_call_then_tail", True, "dec = #'int {{ [~, 1] %(SUB)s }}, f = #'int {{ | =0 => 0 | =n => {B}n dec ^ }}, {N} f"),
+    ("self_partial", True, "f = #[n: 'int, acc: 'int] {{ | =(n: 0) => $.acc | {B}[n: [$.n, 1] %(SUB)s, acc: [$.acc, 2] %(ADD)s] ^ }}, [n: {N}, acc: 0] f"),
+    # --- `^f` (named) -------------------------------------------------------------------------
+    ("named_hop", True, "g = #'int {{ | =0 => 0 | =n => {B}[n, 1] %(SUB)s ^ }}, f = #'int {{ [~, 1] %(ADD)s ^g }}, {N} f"),
+    ("named_mutual", True,
+     "even = #[#^ -> 'int, #^ -> 'int, 'int] {{ | =[_, _, 0] => 1 | =[e, o, n] => {B}[&e, &o, [n, 1] %(SUB)s] ^o }}\n"
+     "odd = #[#^ -> 'int, #^ -> 'int, 'int] {{ | =[_, _, 0] => 0 | =[e, o, n] => {B}[&e, &o, [n, 1] %(SUB)s] ^e }}\n"
+     "[&even, &odd, {N}] even"),
+    ("named_mutual_block", True,
+     "even = #[#^ -> 'int, #^ -> 'int, 'int] {{ | =[_, _, 0] => 1 | =[e, o, n] => {{ {B}[&e, &o, [n, 1] %(SUB)s] ^o }} }}\n"
+     "odd = #[#^ -> 'int, #^ -> 'int, 'int] {{ | =[_, _, 0] => 0 | =[e, o, n] => {{ {{ {B}[&e, &o, [n, 1] %(SUB)s] }} ^e }} }}\n"
+     "[&even, &odd, {N}] even"),
+    ("named_three_cycle", True,
+     "a = #[#^ -> 'int, #^ -> 'int, #^ -> 'int, 'int] {{ | =[_, _, _, 0] => 0 | =[x, y, z, n] => {B}[&x, &y, &z, [n, 1] %(SUB)s] ^y }}\n"
+     "b = #[#^ -> 'int, #^ -> 'int, #^ -> 'int, 'int] {{ | =[_, _, _, 0] => 1 | =[x, y, z, n] => {B}[&x, &y, &z, [n, 1] %(SUB)s] ^z }}\n"
+     "c = #[#^ -> 'int, #^ -> 'int, #^ -> 'int, 'int] {{ | =[_, _, _, 0] => 2 | =[x, y, z, n] => {B}[&x, &y, &z, [n, 1] %(SUB)s] ^x }}\n"
+     "[&a, &b, &c, {N}] a"),
+    ("named_back_and_forth", True,
+     "g = #[#^ -> 'int, 'int] {{ | =[_, 0] => 0 | =[back, n] => {B}[&back, [n, 1] %(SUB)s] ^back }}\n"
+     "f = #[#^ -> 'int, 'int] {{ | =[_, 0] => 0 | =[back, n] => {B}[&back, [n, 1] %(SUB)s] ^g }}\n"
+     "[&f, {N}] f"),
+    ("named_mutual_inner_branch", True,
+     "even = #[#^ -> 'int, #^ -> 'int, 'int] {{ =[e, o, n] => n {{ | =0 => 1 | =m => {B}[&e, &o, [m, 1] %(SUB)s] ^o }} }}\n"
+     "odd = #[#^ -> 'int, #^ -> 'int, 'int] {{ =[e, o, n] => n {{ | =0 => 0 | =m => {B}[&e, &o, [m, 1] %(SUB)s] ^e }} }}\n"
+     "[&even, &odd, {N}] even"),
+    # --- `^~` (ripple) ------------------------------------------------------------------------
+    ("ripple_thunk", False,
+     "'thunk = #[] -> 'int\n"
+     "mk = #[#^ -> 'thunk, 'int] {{ =[self, n], #{{ | n =0 => 0 | n [~, 1] %(SUB)s [&self, ~] self ^~ }} }}, [&mk, {N}] mk =t, t"),
+    ("ripple_thunk_bin", False,
+     "'thunk = #[] -> 'int\n"
+     "mk = #[#^ -> 'thunk, 'int] {{ =[self, n], #{{ | n =0 => 0 | {{ [0x01, 0x02] __binary_concat__, n [~, 1] %(SUB)s [&self, ~] self ^~ }} }} }}, [&mk, {N}] mk =t, t"),
+    ("ripple_thunk_block", False,
+     "'thunk = #[] -> 'int\n"
+     "mk = #[#^ -> 'thunk, 'int] {{ =[self, n], #{{ | n =0 => 0 | {{ {{ n [~, 1] %(SUB)s [&self, ~] self }} ^~ }} }} }}, [&mk, {N}] mk =t, t"),
+    ("ripple_thunk_bin_capture", False,
+     "'thunk = #[] -> 'bin\n"
+     "mk = #[#^ -> 'thunk, 'int, 'bin] {{ =[self, n, b], #{{ | n =0 => b | n [~, 1] %(SUB)s [&self, ~, [b, 0x01] __binary_concat__ [0x02, 0x03] __binary_concat__] self ^~ }} }}, [&mk, {N}, 0x00] mk =t, t"),
+]
+TEMPLATES = [(name, has_bin, text % {"SUB": SUB, "ADD": ADD, "CMP": CMP}) for name, has_bin, text in TEMPLATES]
+
+
+def c16_programs(n_small=20, factor=50):
+    """[(template id, source at N, source at factor * N)]"""
+    out = []
+    for name, has_bin, text in TEMPLATES:
+        variants = [("", "")] + ([("+bin", BIN)] if has_bin else [])
+        for tag, b in variants:
+            out.append((name + tag, text.format(N=n_small, B=b), text.format(N=n_small * factor, B=b)))
+    return out
